@@ -5,19 +5,26 @@
   by `Span.join?`), `Lace/Model/AsmSource.lean` (`get_source_statement`, `show_single_line`),
   `Lace/Model/Debugger.lean` (`resolveLocation`, after the fix of D19).
 
-  STATUS.  Proved: the span of every statement the parser adds starts at the first byte of its
-  mnemonic/directive token and ends with the last consumed operand token (on the parser step,
-  `PState.addStmt`: `span_starts_at_statement_token`, `span_covers_operands_holds`); the tokens one
-  `.fill` / `.blkw` / `.stringz` directive expands to all carry one span
-  (`multiword_share_span_holds`, on the preprocessor step); addresses that hold no statement show nothing; a label
-  location resolves to `orig + line − 1 + offset` for EVERY origin (incl. ≥ 0x8000) whenever that
-  lies in `[orig, 0xFE00)`, and is refused otherwise; every statement span of an assembled image
-  starts and ends on a character boundary of the source, so it can be sliced and `assembly a`
-  never panics (`span_inside_source_holds`, `show_single_line_no_panic`; whole program, lemmas in
-  `Proofs/AsmSpan.lean`).  Stated only (`def … : Prop`) in full: the text-level round trip
-  `span_text_eq_statement` (needs C01's `render` and its stage 3; its `_partial` is proved).  It is
-  checked on every run by the three-way correspondence (implementation vs. model spans vs. the
-  generator's own statement texts).
+  STATUS.  This file — statements about ARBITRARY sources and the label clause.  Proved: the span
+  of every statement the parser adds starts at the first byte of its mnemonic/directive token and ends
+  with the last consumed operand token (on the parser step, `PState.addStmt`:
+  `span_starts_at_statement_token`, `span_covers_operands_holds`); the tokens one `.fill` / `.blkw` /
+  `.stringz` directive expands to all carry one span (`multiword_share_span_holds`, on the
+  preprocessor step); addresses that hold no statement show nothing; a label location resolves to
+  `orig + line − 1 + offset` for EVERY origin (incl. ≥ 0x8000) whenever that lies in
+  `[orig, 0xFE00)`, and is refused otherwise; every statement span of an assembled image starts and
+  ends on a character boundary of the source, so it can be sliced and `assembly a` never panics
+  (`span_inside_source_holds`, `show_single_line_no_panic`; whole program, lemmas in
+  `Proofs/AsmSpan.lean`); `span_text_eq_statement_partial` (a schema over any renderer that reports
+  what it wrote).
+
+  The text-level round trip itself — "`assembly a` shows exactly the source text of the statement
+  that produced the word: mnemonic or directive through its last operand, without label or comment"
+  — is PROVED IN FULL in `Props/C17Text.lean` for the specification's renderer `Spec.render` and its
+  whole layout space (`span_text_eq_statement_render`, `stmtText_render`,
+  `assembly_shows_statement_text`; specification side `Spec.stmtTextOf`).  It is also checked on
+  every run by the three-way correspondence (implementation vs. model spans vs. the generator's own
+  statement texts).
 -/
 import Lace.Model.AsmSource
 import Lace.Proofs.DbgBasics
@@ -182,10 +189,11 @@ theorem multiword_share_span_holds : multiword_share_span := by
     · cases h
     · cases h; exact ⟨[_], rfl, by simp⟩
 
-/-- Full text-level statement: the slice of a rendered program at statement `i`'s span is
-`renderStatement` of statement `i`.  Needs C01's `render` (stage 3); STATED as a schema over any
-renderer that reports what it wrote — which is exactly what the harness generator does on every
-run. -/
+/-- Text-level statement as a schema over ANY renderer that reports what it wrote (which is what
+the harness generator does on every run): the slice of the source at statement `i`'s span is what
+the renderer wrote for statement `i`.  For the specification's renderer `Spec.render` the hypothesis
+"reported spans = assembler's spans" is discharged and the statement proved outright in
+`Props/C17Text.lean` (`span_text_eq_statement_render`). -/
 def span_text_eq_statement : Prop :=
   ∀ (so : Bool) (src : List Char) (img : Image) (tbl : SymTab)
     (written : List (Nat × Nat × List Char)),      -- per image word: offset, length, text written
